@@ -343,11 +343,10 @@ class OtoSpec:
                     m.append((s, 'xeq', mode, 'set', k, v))
                 m.append((s, 'xeq', 'kv', 'setdefaultd', k, v))
                 m.append((s, 'xeq', 'kv', 'update_pairs', ((k, v),)))
-                m.append((s, 'xeq', 'kv', 'ior_dict', ((k, v),)))
             for k in DOM:
                 m += [(s, 'xeq', 'k', 'del', k), (s, 'xeq', 'k', 'pop', k)]
             for l in three:
-                m.append((s, 'xeq', 'kv', 'update_iter', l))
+                m.append((s, 'xeq', 'kv', 'ior_dict', l))
         root = []
         for l in [()] + one + two + three:
             root.append(('f', 'ctor', 'pairs', l))
@@ -635,6 +634,134 @@ OTO_MUTS = ([('f', 'set', 2, 2), ('i', 'set', 0, 1), ('f', 'setdefaultd', 1, 0),
              ('f', 'set', 0, 2), ('f', 'clear'), ('i', 'set', 1, 0), ('f', 'popitem')])
 
 
+# ------------------------------------------------------------------------------------------------------
+# OneToOne operand-identity matrix (E2): operands of the SAME type that are equal to, but are not, the stored objects
+# ------------------------------------------------------------------------------------------------------
+# The searches above use small ints, which the interpreter shares: an operand there is either the very object that
+# is stored or (xeq ops) an equal object of another type.  Application keys are tuples, long strings, big ints ...
+# built at run time: equal to the stored key, the same type, another object.  Every value-state of a OneToOne over
+# 3 x 3 objects (34) x every writer / remover on either side x every choice of "the stored object" / "a new equal
+# object" per operand, against the same reference model and invariants.
+
+OBJ_SHARED = tuple(tuple(['obj', i]) for i in DOM)      # the one shared object per domain element
+
+
+def obj_make(i, how):
+    """'S': the shared object for i.  'N': a new tuple equal to it, built now - never the same object."""
+    return OBJ_SHARED[DOM.index(i)] if how == 'S' else tuple(['obj', i])
+
+
+def oto_value_states():
+    """Every one-to-one relation over DOM x DOM as a pair list, smallest first (1 + 9 + 18 + 6)."""
+    out = []
+    for n in range(len(DOM) + 1):
+        for keys in itertools.combinations(DOM, n):
+            for vals in itertools.permutations(DOM, n):
+                out.append(tuple(zip(keys, vals)))
+    return out
+
+
+OTO_ID_PAIR_OPS = ('set', 'setdefaultd', 'update_pairs', 'update_iter', 'update_dict', 'ior_dict', 'ior_pairs')
+OTO_ID_KEY_OPS = ('del', 'pop', 'popd', 'setdefault')
+
+
+def oto_identity_cases():
+    """(state, stored, op, operand modes) - simplest first."""
+    for state in oto_value_states():
+        for stored in ('S', 'N'):
+            # stored 'N': whatever the operand is, it is not the stored object - one operand mode is enough
+            pair_modes = ('SS', 'NS', 'SN', 'NN') if stored == 'S' else ('NN',)
+            key_modes = ('S', 'N') if stored == 'S' else ('N',)
+            for s in ('f', 'i'):
+                for n in OTO_ID_PAIR_OPS:
+                    for k, v in PAIRS:
+                        for md in pair_modes:
+                            yield state, stored, (s, n, k, v), md
+                for n in OTO_ID_KEY_OPS:
+                    for k in DOM:
+                        for md in key_modes:
+                            yield state, stored, (s, n, k), md
+
+
+def oto_identity_check(cls, spec, state, stored, op, modes):
+    """One case on the real class.  Returns [(sig, expected, observed)] (empty: fine)."""
+    out = []
+    s, n = op[0], op[1]
+    pairs = [(obj_make(k, stored), obj_make(v, stored)) for k, v in state]
+    distinct = ''.join(c for c, md in zip('kv', modes) if stored == 'N' or md == 'N')
+    base = oto_opname((s, n))
+    name = '%s[equal-not-identical:%s]' % (base, XEQ_MODES[distinct]) if distinct else base
+
+    def bad(what, exp, obs, read=False):
+        out.append(('C17|read:OneToOne.%s' % what if read else 'C17|op:%s|%s' % (name, what), exp, obs))
+
+    try:
+        o = cls(pairs)
+        built = dict(dict.items(o)) == dict(pairs) and dict(dict.items(o.inv)) == transpose(dict(pairs))
+    except Exception as e:
+        o, built = None, 'raised ' + type(e).__name__
+    if built is not True:
+        out.append(('C17|op:OneToOne.ctor(pairs)|contents', dict(pairs), repr(o) if o is not None else built))
+        return out
+    D = dict(pairs)
+    K = obj_make(op[2], modes[0])
+    if n in OTO_ID_KEY_OPS:
+        cop = (s, n, K) + (('D',) if n == 'popd' else ())
+    else:
+        V = obj_make(op[3], modes[1])
+        cop = (s, n, K, V) if n in ('set', 'setdefaultd') else (s, n, ((K, V),))
+    x = o if s == 'f' else o.inv
+    Dx = D if s == 'f' else transpose(D)
+    r_i, arg_ok = oto_apply(cls, x, cop)
+    res, succ = oto_model(Dx, cop, r_i)
+    ok = True
+    if r_i not in res:
+        bad('result', res[0], r_i); ok = False
+    ok = spec.invariants(o, bad) and ok
+    got = dict(dict.items(x))
+    if ok and got not in succ:
+        bad('contents', succ[0], got); ok = False
+    if ok and not arg_ok:
+        bad('argument-changed', 'argument left as passed', 'argument mutated'); ok = False
+    if ok:
+        spec.battery(o, dict(dict.items(o)), bad)
+    return out
+
+
+def oto_identity_spec():
+    spec = OtoSpec(expand_none=False, rich=False)
+    spec.dom = OBJ_SHARED               # the keys the read battery asks for
+    return spec
+
+
+def oto_identity_case(state, stored, op, modes):
+    return {'kind': 'oto-identity', 'objects': 'tuple(["obj", i]) for i in %r' % (DOM,), 'state': [list(p) for p in state],
+            'stored': {'S': 'shared objects', 'N': 'new equal objects'}[stored], 'op': list(op),
+            'operands': [{'S': 'the shared object', 'N': 'a new equal object'}[c] for c in modes]}
+
+
+def oto_identity_shard(arg):
+    from boltons.dictutils import OneToOne
+    idx, nshards = arg
+    t = inputs.Tally()
+    spec = oto_identity_spec()
+    cur = None
+    try:
+        with Budget(600):
+            for i, (state, stored, op, modes) in enumerate(oto_identity_cases()):
+                if i % nshards != idx:
+                    continue
+                cur = (state, stored, op, modes)
+                case = oto_identity_case(*cur)
+                t.count(nontrivial=bool(state) and (stored == 'N' or 'N' in modes), sample=case)
+                for sig, exp, obs in oto_identity_check(OneToOne, spec, state, stored, op, modes):
+                    t.bad(sig, case, exp, obs)
+    except Hang:
+        t.bad('C17|op:%s|terminates' % oto_opname(cur[2][:2]), oto_identity_case(*cur), 'returns',
+              'shard exceeded its 600 s CPU budget')
+    return t
+
+
 # ======================================================================================================
 # ManyToMany
 # ======================================================================================================
@@ -650,9 +777,19 @@ M2M_CTOR = {'pairs': 'ctor(pairs)', 'iter': 'ctor(iterator)', 'dict': 'ctor(dict
             'none': 'ctor()'}
 
 
+def m2m_concrete(op):
+    """('f', 'xeq', 'kv', 'add'|'remove', k, v) -> the op with key and value replaced by equal-but-distinct objects
+    (see oto_concrete); other ops unchanged."""
+    if op[1] != 'xeq':
+        return op
+    return (op[0], op[3], eqv(op[4]), eqv(op[5]))
+
+
 def m2m_opname(op, P=None):
     """Operation name with the argument shape; state-dependent shapes need the model pair set P of the target."""
     n = op[1]
+    if n == 'xeq':
+        return '%s[equal-not-identical:%s]' % (m2m_opname((op[0],) + tuple(op[3:]), P), XEQ_MODES[op[2]])
     if n in M2M_SHAPES:
         return 'ManyToMany.' + M2M_SHAPES[n]
     if n == 'ctor':
@@ -808,6 +945,9 @@ class M2mSpec:
                 m.append((s, 'add', k, v))
             for k, v in PAIRS:
                 m.append((s, 'remove', k, v))
+            for k, v in PAIRS:              # operands equal to, but not the same objects (nor type) as, the stored ones
+                m.append((s, 'xeq', 'kv', 'add', k, v))
+                m.append((s, 'xeq', 'kv', 'remove', k, v))
             for k in DOM:
                 for sub in subsets:
                     m.append((s, 'setitem', k, sub))
@@ -854,7 +994,7 @@ class M2mSpec:
         if n == 'update_m2m':
             x.update(cls([tuple(p) for p in op[2]]))
         else:
-            m2m_apply(cls, x, op)
+            m2m_apply(cls, x, m2m_concrete(op))
         return m
 
     @staticmethod
@@ -979,8 +1119,8 @@ class M2mSpec:
                 r_i = ('exc', type(e).__name__)
             arg_ok = m2m_canon(other) == ob
         else:
-            r_i, arg_ok = m2m_apply(cls, x, op)
-        res, succ = m2m_model(Px, op)
+            r_i, arg_ok = m2m_apply(cls, x, m2m_concrete(op))
+        res, succ = m2m_model(Px, m2m_concrete(op))
         label = (name + ('@inv' if s == 'i' else ''), r_i[0] if r_i[0] == 'ok' else r_i[1])
         ok = True
         if r_i not in res:
@@ -1213,6 +1353,74 @@ def fd_hashable(d):
         return False
 
 
+def fd_subclasses(FrozenDict):
+    """Application-level record types: a plain and a slotted subclass of the FrozenDict under test.  Their instances
+    ARE FrozenDicts and compare equal (dict equality) to a FrozenDict with the same items.  The classes are module
+    attributes, so pickle finds them by name."""
+    g = globals()
+    if g.get('_FD_BASE') is not FrozenDict:
+        g['_FD_BASE'] = FrozenDict
+        for nm, ns in (('FDRecord', {}), ('FDSlottedRecord', {'__slots__': ()})):
+            g[nm] = type(nm, (FrozenDict,), dict(ns, __module__=__name__, __qualname__=nm))
+    return g['FDRecord'], g['FDSlottedRecord']
+
+
+def fd_check_subclasses(FrozenDict, FrozenHashError, content, fd, h0, bad, count):
+    """"equal FrozenDicts have equal hashes": also when one of them is an instance of a FrozenDict subclass (the
+    statement does not restrict the concrete class; equality is dict equality and ignores it)."""
+    import copy
+    import pickle
+    subs = fd_subclasses(FrozenDict)
+    made = []
+    for cls in subs:
+        count()
+        try:
+            made.append((cls.__name__, cls(fd_items(content))))
+        except Exception as e:
+            bad('hash|subclass-instance', 'hash-subclass', 'an instance of %s' % cls.__name__, 'raised ' + type(e).__name__)
+    for nm, inst in list(made):
+        for via, mk in (('updated()', lambda: inst.updated()), ('copy()', lambda: inst.copy()),
+                        ('copy.copy', lambda: copy.copy(inst)), ('pickle', lambda: pickle.loads(pickle.dumps(inst))),
+                        ('FrozenDict(instance)', lambda: FrozenDict(inst)), ('subclass(FrozenDict)', lambda: type(inst)(fd))):
+            count()
+            try:
+                made.append(('%s via %s' % (nm, via), mk()))
+            except Exception as e:
+                bad('hash|subclass-instance', 'hash-subclass', 'a value equal to the original via ' + via,
+                    'raised ' + type(e).__name__)
+    for nm, other in made:
+        try:
+            eq = isinstance(other, FrozenDict) and other == fd and fd == other
+        except Exception:
+            eq = False
+        if not eq:
+            continue                                    # value equality of derivations is judged in part C
+        if h0 is None:
+            outs = []
+            for _ in range(2):
+                try:
+                    hash(other); outs.append('returned')
+                except FrozenHashError:
+                    outs.append('FrozenHashError')
+                except Exception as e:
+                    outs.append(type(e).__name__)
+            if outs != ['FrozenHashError'] * 2:
+                bad('hash|unhashable-value-raises-FrozenHashError-every-time', 'hash-subclass', ['FrozenHashError'] * 2,
+                    {'object': nm, 'outcomes': outs})
+            continue
+        ho = fd_hash_outcome(other)
+        if ho != h0:
+            bad('hash|subclass-instance-equal-to-a-FrozenDict', 'hash-subclass', 'equal objects, equal hashes',
+                {'object': nm, 'equal': True, 'hash': 'different' if ho[0] == 'ok' else ho[1]})
+            continue
+        try:
+            found = other in {fd} and fd in {other} and {other: 1}.get(fd) == 1
+        except Exception as e:
+            found = 'raised ' + type(e).__name__
+        if found is not True:
+            bad('hash|subclass-instance-usable-as-key', 'hash-subclass', True, {'object': nm, 'found': found})
+
+
 def fd_check_content(FrozenDict, FrozenHashError, content, t, only=None):
     """All checks for one ordered content.  `only` (a check label) restricts the run for replays."""
     import copy
@@ -1292,7 +1500,9 @@ def fd_check_content(FrozenDict, FrozenHashError, content, t, only=None):
                     continue
                 if o == fd and fd_hash_outcome(o) != h[0]:
                     bad('hash|construction-route', 'hash', 'equal hashes via ' + route, 'different hashes')
+            fd_check_subclasses(FrozenDict, FrozenHashError, content, fd, h[0], bad, lambda: t.count(nontrivial=nontriv))
     else:
+        fd_check_subclasses(FrozenDict, FrozenHashError, content, fd, None, bad, lambda: t.count(nontrivial=nontriv))
         outs = []
         for _ in range(3):
             try:
@@ -1506,8 +1716,13 @@ def run(ctx):
     cov = histories.merge_coverage(ctx, parts, rule=(
         'E1: BFS to fixpoint over all histories of the op menu, keys and values from {0,1,2}, every operation on the '
         'forward object and on .inv; a state is the canonical form of the real pair of dicts (items in dict order on '
-        'both sides; ManyToMany: value sets sorted, pattern of shared set objects).  E2: a FrozenDict case is '
+        'both sides; ManyToMany: value sets sorted, pattern of shared set objects); writers and removers also with '
+        'operands that are equal to but not the same objects as the stored ones (1.0 for 1).  E2: a FrozenDict case is '
         'non-trivial when the content is non-empty (hash part: at least two keys, so insertion orders differ)'))
+    inputs.run_shards(ctx, oto_identity_shard, [(i, 16) for i in range(16)], part='onetoone-operand-identity', rule=(
+        'every one-to-one relation over 3 x 3 tuple objects x every writer / remover on the forward and the inverse side '
+        'x per operand "the stored object" or "a new equal object of the same type"; non-trivial: non-empty state and at '
+        'least one operand that is not the stored object'))
     values = FD_VALUES_QUICK if quick else FD_VALUES_THOROUGH
     n = 16
     inputs.run_shards(ctx, fd_shard, [(values, i, n) for i in range(n)], part='frozendict-matrix', rule=(
@@ -1518,19 +1733,28 @@ def run(ctx):
                            % (3 if quick else 4, MIXED_KEY_CODES))
     fd_cross_process(ctx)
     cov['bounds'] = {'OneToOne/ManyToMany': {'keys': list(DOM), 'values': list(DOM),
-                                             'sides': ['forward', 'inv'], 'search': 'fixpoint'},
+                                             'sides': ['forward', 'inv'], 'search': 'fixpoint',
+                                             'operand_identity': ['the stored object (shared small int)',
+                                                                  'equal object of another type (float), xeq ops']},
+                     'OneToOne operand identity': {'objects': 'tuples ("obj", i), i in %r' % (DOM,),
+                                                   'states': len(oto_value_states()), 'stored': ['shared', 'new equal'],
+                                                   'operands': ['the shared object', 'a new equal object'],
+                                                   'ops': list(OTO_ID_PAIR_OPS + OTO_ID_KEY_OPS), 'sides': ['forward', 'inv']},
                      'FrozenDict': {'keys': list(FD_KEYS), 'values': list(values), 'max_items': 3,
+                                    'classes': ['FrozenDict', 'plain subclass', 'slotted subclass (hash part)'],
                                     'insertion_orders': 'all', 'ordered_contents': sum(1 for _ in fd_contents(values))}}
     cov['exhaustive'] = all(r.fixpoint for _, r in parts)
     ctx.assumptions += [
         'keys and values are ints 0..2 (OneToOne/ManyToMany) with well-behaved __eq__/__hash__; None and string keys '
-        'enter only through setdefault(k) and update(**kwargs): such successor states are checked'
+        'enter only through setdefault(k) and update(**kwargs) (plus floats 0.0..2.0 and tuples as equal-but-distinct '
+        'operands; "inverse" and "same pairs" are judged by ==, as dicts do): such successor states are checked'
         + (' but not expanded' if quick else '; None-states are expanded in the second OneToOne search, kwargs-states are not'),
         'popitem may remove any present item (the reference follows the implementation)',
         'ManyToMany.replace onto an existing key may merge or take over (DESIGN 5.1)',
         'remove/del of an absent ManyToMany pair/key may raise KeyError or do nothing; the state must not change',
         'update(pairs with a repeated key) may assign pair by pair or de-duplicate the argument first',
         'a FrozenDict call that would not change a builtin dict may raise TypeError or answer like the dict',
+        'an instance of a FrozenDict subclass is a FrozenDict: when it compares equal to another FrozenDict the hashes must agree',
         'hang guard: %d s of worker CPU time per expanded state (normal cost: well under a second)' % OP_BUDGET]
 
 
@@ -1544,6 +1768,18 @@ def replay(ctx, data):
         fd_cross_process(ctx)
         return ['%s expected=%r observed=%r' % (r['sig'], r['expected'], r['observed'])
                 for k, r in sorted(ctx.viol.items()) if k not in t0]
+    if kind == 'oto-identity':
+        from boltons.dictutils import OneToOne
+        rev = lambda d, x: [k for k, v in d.items() if v == x][0]        # noqa: E731
+        stored = rev({'S': 'shared objects', 'N': 'new equal objects'}, case['stored'])
+        modes = ''.join(rev({'S': 'the shared object', 'N': 'a new equal object'}, m) for m in case['operands'])
+        try:
+            with Budget(OP_BUDGET):
+                found = oto_identity_check(OneToOne, oto_identity_spec(), [tuple(p) for p in case['state']], stored,
+                                           tup(case['op']), modes)
+        except Hang:
+            return ['%s: no return within %d s of CPU time' % (data.get('signature'), OP_BUDGET)]
+        return ['%s expected=%r observed=%r' % f for f in found]
     if kind == 'frozen-mixed':
         from boltons.dictutils import FrozenDict
         t = inputs.Tally()
